@@ -202,7 +202,6 @@ func c20Phase(r *Run, cs c20Case) {
 	wg.Wait()
 }
 
-
 // c20Steal forces the only ordering under which an early return is a real
 // violation. Maintenance is stalled inside a batch; then, in this order:
 // n1 Deletes (A) are queued, waiter W1 queues its marker and is parked at the
